@@ -56,6 +56,10 @@ def input_data(prog: dict, rng: np.random.Generator, kind: str) -> dict[str, np.
             arr = arr.astype(rp.DT[d])
         counter += 1
         data[i["name"]] = np.ascontiguousarray(arr) if arr.ndim else np.asarray(arr)
+    # ONE data object under several inputs (wrapped by several DataWrapper nodes)
+    for i in prog["inputs"]:
+        if i.get("same_as"):
+            data[i["name"]] = data[i["same_as"]]
     return data
 
 
